@@ -20,6 +20,7 @@ import (
 	"encoding/json"
 	"fmt"
 	gobuild "go/build"
+	"go/build/constraint"
 	"os"
 	"path/filepath"
 	"sort"
@@ -43,11 +44,25 @@ type tcase struct {
 	Goos   string   `json:"goos"`   // value of the GOOS environment variable ("" = unset)
 	Goarch string   `json:"goarch"` // value of the GOARCH environment variable ("" = unset)
 	Files  []file   `json:"files"`
+	Path   string   `json:"path"` // kinds stdpath / overlay: the import path (directory below src/)
 }
 
 type input struct {
-	Root  string  `json:"root"`
-	Cases []tcase `json:"cases"`
+	Root    string     `json:"root"`
+	Cases   []tcase    `json:"cases"`
+	Lines   []string   `json:"lines"`    // phase 4: constraint lines handed to go/build/constraint
+	TagSets [][]string `json:"tag_sets"` // ... and the tag assignments they are evaluated under
+}
+
+// what go/build/constraint says about one line
+type lineResult struct {
+	IsGoBuild   bool     `json:"is_go_build"`
+	IsPlusBuild bool     `json:"is_plus_build"`
+	Err         string   `json:"err"`        // "" or the error text of constraint.Parse
+	Str         string   `json:"str"`        // Expr.String()
+	PlusErr     string   `json:"plus_err"`   // error of constraint.PlusBuildLines
+	PlusLines   []string `json:"plus_lines"` // its result
+	Evals       []bool   `json:"evals"`      // Expr.Eval under each tag set
 }
 
 type ctxDump struct {
@@ -71,6 +86,9 @@ type result struct {
 	CgoFiles  []string `json:"cgo"`
 	JSFiles   []string `json:"js"`
 	Goroot    bool     `json:"goroot"`
+	Imports   []string `json:"imports"`
+	TestImps  []string `json:"test_imports"`
+	XTestImps []string `json:"xtest_imports"`
 	Primary   ctxDump  `json:"primary"`
 	Secondary ctxDump  `json:"secondary"`
 	Preload   ctxDump  `json:"preload"` // context after applyPreloadTweaks for this import
@@ -82,6 +100,30 @@ type output struct {
 	DefaultReleaseTags []string `json:"default_release_tags"` // go/build.Default.ReleaseTags as seen after versionhack
 	DefaultToolTags    []string `json:"default_tool_tags"`
 	Results            []result `json:"results"`
+	Lines              []lineResult `json:"lines"`
+}
+
+func parseLine(line string, sets [][]string) (r lineResult) {
+	r.IsGoBuild, r.IsPlusBuild = constraint.IsGoBuild(line), constraint.IsPlusBuild(line)
+	x, err := constraint.Parse(line)
+	if err != nil {
+		r.Err = err.Error()
+		return
+	}
+	r.Str = x.String()
+	if ls, err := constraint.PlusBuildLines(x); err != nil {
+		r.PlusErr = err.Error()
+	} else {
+		r.PlusLines = ls
+	}
+	for _, set := range sets {
+		m := map[string]bool{}
+		for _, t := range set {
+			m[t] = true
+		}
+		r.Evals = append(r.Evals, x.Eval(func(tag string) bool { return m[tag] }))
+	}
+	return
 }
 
 func dump(c gobuild.Context) ctxDump {
@@ -123,6 +165,15 @@ func run(root string, tc tcase) (res result) {
 	case "gopathdot":
 		dir = filepath.Join(root, "gopath", "src", "c18.dot", tc.ID)
 		importPath, srcDir = "c18.dot/"+tc.ID, ""
+	case "stdpath":
+		// a package of the fake GOROOT under a GIVEN import path (runtime, sync, syscall/js ...): post-load tweaks
+		dir = filepath.Join(root, "goroot", "src", filepath.FromSlash(tc.Path))
+		importPath, srcDir = tc.Path, ""
+		os.RemoveAll(dir)
+	case "overlay":
+		// a package served by the VIRTUAL context (what overlayCtx / gopherjsCtx use), from <root>/overlay/<id>/src/<path>
+		dir = filepath.Join(root, "overlay", tc.ID, "src", filepath.FromSlash(tc.Path))
+		importPath, srcDir = tc.Path, ""
 	default:
 		res.Err = "other: bad kind"
 		return
@@ -163,7 +214,12 @@ func run(root string, tc tcase) (res result) {
 			res.Err = fmt.Sprint("other: panic: ", r)
 		}
 	}()
-	x := build.NewBuildContext("", tc.Tags)
+	var x build.XContext
+	if tc.Kind == "overlay" {
+		x = build.VerifC18Embedded(filepath.Join(root, "overlay", tc.ID), tc.Tags)
+	} else {
+		x = build.NewBuildContext("", tc.Tags)
+	}
 	if p, s, ok := build.VerifC18Contexts(x); ok {
 		res.Primary, res.Secondary = dump(p), dump(s)
 	}
@@ -187,6 +243,7 @@ func run(root string, tc tcase) (res result) {
 	res.Ignored = sorted(pkg.IgnoredGoFiles)
 	res.CgoFiles = sorted(pkg.CgoFiles)
 	res.Goroot = pkg.Goroot
+	res.Imports, res.TestImps, res.XTestImps = sorted(pkg.Imports), sorted(pkg.TestImports), sorted(pkg.XTestImports)
 	js := []string{}
 	for _, f := range pkg.JSFiles {
 		js = append(js, filepath.Base(f.Path))
@@ -207,6 +264,9 @@ func main() {
 		Results:            []result{}}
 	for _, tc := range in.Cases {
 		out.Results = append(out.Results, run(in.Root, tc))
+	}
+	for _, l := range in.Lines {
+		out.Lines = append(out.Lines, parseLine(l, in.TagSets))
 	}
 	if err := json.NewEncoder(os.Stdout).Encode(out); err != nil {
 		fmt.Fprintln(os.Stderr, err)
